@@ -1,7 +1,9 @@
 (* Case-line interpreter for C09 (evaluated by the extracted driver and inside Coq).
    line:   <capacity> <event> <event> ...
    event:  <conn><c|s>:<flags>:<seq>:<payload hex | ->
-           conn = decimal connection number (on the wire 10.0.1.<conn>:40000+<conn> -> 10.0.2.1:80),
+           conn = decimal connection number < 200; on the wire (Model/HttpFlow.v `wire`): conn < 100 is
+           10.0.1.<conn>:40000+<conn> -> 10.0.2.1:80, 100..149 is 10.0.2.1:40000+<conn> -> 10.0.2.1:80 (same
+           address), 150..199 is [::1]:40000+<conn> -> [::1]:80 (IPv6, same address),
            c = sent by the client (the side that sends the opening SYN), s = by the server,
            flags = subset of the letters S A F R P, or - for none (A and P are put on the wire but
            never read by the analyzer), seq = raw u32 sequence number, decimal.
